@@ -12,12 +12,14 @@ MODULE = "DfolsVerif.Properties.C10"
 BUILD_TARGETS = ss.ACCEPT_TARGETS
 THEOREMS = ["Dfols.C10.C10_nruns", "Dfols.C10.C10_maxfun", "Dfols.C10.C10_restarts", "Dfols.C10.C10_small", "Dfols.C10.C10_rhoend",
             "Dfols.C10.C10_src_maxfun", "Dfols.C10.C10_src_small", "Dfols.C10.C10_src_threshold", "Dfols.C10.C10_src_rhoend",
-            "Dfols.C10.C10_src_restarts", "Dfols.C10.C10_src_success_reasons"]
+            "Dfols.C10.C10_src_restarts", "Dfols.C10.C10_src_success_reasons", "Dfols.C10.C10_soft_refusal"]
 
 
 def pre_build(ctx):
     import gen_exitsites
     ctx.cov["exit_creation_sites_in_repo"] = gen_exitsites.regenerate(ctx)
+    import gen_kernels
+    ctx.cov["translated_restart_guards"] = gen_kernels.regenerate_guards(ctx)
 
 
 TRUSTED_EXTRA = [
@@ -39,6 +41,16 @@ def mutate(rng, prob, kw, d):
     if rng.random() < 0.25:
         kw["rhoend"] = float(rng.choice([1e-2, 1e-3]))
         d["rhoend"] = kw["rhoend"]
+    if rng.random() < 0.12 and not up.get("restarts.use_restarts") and not kw.get("objfun_has_noise"):
+        # a small (documented, >= 1/250) alpha1 with rhobeg/rhoend inside the geometric-mean window of reduce_rho and
+        # a budget that lets rho arrive at rhoend: the 'rho has reached rhoend' exit must find rho == rhoend exactly
+        a1 = float(rng.uniform(0.005, 0.035))
+        r0 = float(rng.uniform(26.0, min(240.0, 0.95 / a1)))
+        rb = float(kw.get("rhobeg", d.get("rhobeg", 0.1)))
+        up["tr_radius.alpha1"] = a1
+        kw["rhoend"] = rb / r0
+        kw["maxfun"] = int(rng.integers(150, 300))
+        d.update(rhoend=kw["rhoend"], maxfun=kw["maxfun"], small_alpha1=a1)
     d["user_params"] = dict(up)
 
 
